@@ -91,6 +91,12 @@ def PyExc(*a):
     return P(*a)
 
 
+def deep_sym(v):
+    if isinstance(v, (tuple, list)):
+        return any(deep_sym(x) for x in v)
+    return is_sym(v)
+
+
 def hashable(k):
     if isinstance(k, list):
         return tuple(hashable(x) for x in k)
@@ -263,7 +269,7 @@ def str_from_parts(ps):
         return ps[0]
     terms = [z3.StringVal(p) if isinstance(p, str) else p.t for p in ps]
     t = terms[0] if len(terms) == 1 else z3.Concat(*terms)
-    if all(isinstance(p, OpaqueStr) for p in ps) and len(ps) == 1:
+    if all(isinstance(p, OpaqueStr) and not p.alpha for p in ps) and len(ps) == 1:
         return Sym(STR, t)
     return Sym(STR, t, parts=ps)
 
@@ -616,6 +622,8 @@ def contains(I, container, item):
                 acc = e if acc is False else z3.Or(acc, e)
         return wrap_bool(acc)
     if isinstance(container, dict):
+        if not deep_sym(item) and not any(deep_sym(x) for x in container):
+            return hashable(item) in container
         return contains(I, list(container.keys()), item)
     if isinstance(container, SMap):
         return wrap_bool(container.has(I.term(item)))
@@ -780,7 +788,7 @@ def subscript(I, o, k):
             raise PathEnd()
         raise PyExc('TypeError', 'list index')
     if isinstance(o, dict):
-        if not is_sym(k):
+        if not deep_sym(k) and not any(deep_sym(x) for x in o):
             hk = hashable(k)
             if hk in o:
                 return o[hk]
@@ -922,8 +930,15 @@ def store_subscript(I, o, k, v):
                 return None
         raise PathEnd()
     if isinstance(o, dict):
-        if is_sym(k):
-            raise Unsupported('dict store with symbolic key')
+        if deep_sym(k) or any(deep_sym(x) for x in o):
+            # association-list semantics: replace the entry whose key equals k, else add one
+            for key in list(o):
+                e = eq_term(I, key, k)
+                if I.branch(e):
+                    o[key] = v
+                    return None
+            o[k if not isinstance(k, list) else tuple(k)] = v
+            return None
         o[hashable(k)] = v
         return None
     if isinstance(o, SArr):
